@@ -713,7 +713,7 @@ pub fn gen_corpus_with(seed: u64, n_fam: usize, q_per_fam: usize, adv: bool) -> 
         let names: &[&str] = if adv && f % 4 == 3 { gen::NAMES_ADV } else { gen::NAMES_PLAIN };
         let p = DocParams { max_nodes: 8 + rng.below(23), max_depth: 1 + rng.below(4), names, max_width: 4 };
         let mut base = gen::gen_doc(&mut rng, &p);
-        let special = f % 3 == 0;
+        let special = f % 2 == 0;
         if special {
             // the shape the extension functions, regex filters and root-dependent filters are selective on
             base = json!({"elems": [gen::scalar(&mut rng), "a", "ab", ["a", "b"], ["x"], {"a": "xay", "b": 1, "re": "x.y"}, 2, 0], "list": ["a", "b", 1], "x": {"a": "ab", "b": [1, 2, 3]}, "a": base,
@@ -759,7 +759,7 @@ pub fn gen_corpus_with(seed: u64, n_fam: usize, q_per_fam: usize, adv: bool) -> 
         while fq.len() < q_per_fam && k < q_per_fam * 4 {
             k += 1;
             let tier = qrng.weighted(&[3, 4, 3]);
-            let q = match qrng.weighted(&[10, 2, 4, 2, if special { 5 } else { 0 }]) {
+            let q = match qrng.weighted(&[10, 2, 4, 2, if special { 8 } else { 0 }]) {
                 0 => g.query(&mut qrng, tier),
                 1 => {
                     // match / search twins with the same pattern
